@@ -13,13 +13,20 @@ JPROG = {
     "v0": {"j": "cwyd", "k": "cswyd", "r": "cs", "q": "cscwyd"},
 }
 
+TWO = "cfz"        # spawner kinds that make two scope_references
+FAULT = "xwyz"     # spawner kinds whose operation throws: no completer thread
+
 def nrefs(sp):
-    return sum(2 if c in "cf" else 1 for c in sp)
+    return sum(2 if c in TWO else 1 for c in sp)
 
 def plans(variant, sp):
     """model plans: s = PStart (observable receiver), t = PDetach (internal receiver), d = PDrop"""
     det = "s" if variant == "v2" else "t"
-    return "".join({"s": det, "n": det, "d": "d", "c": "ds", "a": "s", "f": "dt"}[c] for c in sp) or "-"
+    # faults: v2 nest+connect / v1 attach+connect throwing = PFail (p); a spawn_detached / spawn /
+    # spawn_future whose construction throws releases what it had been granted = PDrop (d)
+    flt = "p" if variant == "v2" else "d"
+    return "".join({"s": det, "n": det, "d": "d", "c": "ds", "a": "s", "f": "dt",
+                    "x": flt, "w": "d", "y": "p", "z": "dd"}[c] for c in sp) or "-"
 
 
 class ScopeUnit(Unit):
@@ -48,9 +55,9 @@ class ScopeUnit(Unit):
         roles = {0: ("own", None)}
         t = 1
         for c in sp:
-            roles[t] = ("spf" if c == "f" else "sp", None); t += 1
+            roles[t] = ("spf" if c in "fz" else "sp", None); t += 1
         for c in sp:
-            if c != "d":
+            if c != "d" and c not in FAULT:
                 roles[t] = ("sp", None); t += 1
         for j, c in enumerate(jn):
             roles[t] = ("jn", j); t += 1
@@ -74,7 +81,7 @@ class ScopeUnit(Unit):
         op_ref = []           # spawner index -> reference of its operation
         k = 0
         for c in sp:
-            op_ref.append(k + (1 if c in "cf" else 0)); k += 2 if c in "cf" else 1
+            op_ref.append(k + (1 if c in TWO else 0)); k += 2 if c in TWO else 1
         cur = {}
         adv = set()
         touched, admitted, released, workdone = set(), set(), set(), set()
@@ -93,7 +100,7 @@ class ScopeUnit(Unit):
             if jpos[j] < len(pr) and pr[jpos[j]] == kind:
                 jpos[j] += 1
         def ready(r):
-            return r in admitted and r not in released and (pl[r] == "d" or r in workdone)
+            return r in admitted and r not in released and (pl[r] in "dp" or r in workdone)
         for e in events:
             m = re.match(r"t(\d+) (\S+) ?(.*)$", e)
             t, name, rest = int(m.group(1)), m.group(2), m.group(3)
@@ -202,9 +209,13 @@ class ScopeUnit(Unit):
         # thread never runs and stays at L
         k = 0
         for c in sp:
-            w = 2 if c in "cf" else 1
+            w = 2 if c in TWO else 1
             seg = pcs[k:k + w]
             ok = all(ch in "Ff" for ch in seg) or (c == "c" and seg == "fL")
+            # a v0 spawn whose connect throws, or an allocation that throws, happens before any
+            # try_record_start: the reference never exists
+            if (c == "w" or (c == "x" and self.variant == "v0")) and seg == "L":
+                ok = True
             if not ok:
                 return "model: reference(s) of spawner %r not finished (%s): %s" % (c, seg, summary)
             k += w
@@ -223,8 +234,9 @@ class ScopeV2(ScopeUnit):
         if tier == "quick":
             return [("s", "j"), ("s", "jj"), ("ss", "j"), ("sd", "j"), ("c", "j"), ("sn", "j"),
                     ("d", "jj"), ("ss", "jj"), ("sc", "j"), ("s", "rj"), ("-", "jj"), ("sss", "j"),
-                    ("dn", "rj"), ("sd", "jj")]
-        return [("s", "j"), ("s", "jj"), ("ss", "j"), ("sd", "j"), ("c", "j"), ("sn", "j"), ("d", "jj"),
+                    ("dn", "rj"), ("sd", "jj"), ("x", "j"), ("sx", "j")]
+        return [("x", "j"), ("sx", "j"), ("xx", "jj"), ("sxn", "rj"),
+                ("s", "j"), ("s", "jj"), ("ss", "j"), ("sd", "j"), ("c", "j"), ("sn", "j"), ("d", "jj"),
                 ("ss", "jj"), ("sc", "j"), ("s", "rj"), ("-", "jj"), ("sss", "j"), ("dn", "rj"), ("sd", "jj"),
                 ("sss", "jj"), ("scd", "jj"), ("cc", "j"), ("snn", "jj"), ("ssd", "rj"), ("s", "jjj"),
                 ("sc", "rjj"), ("nn", "rj"), ("ssn", "jj")]
@@ -235,8 +247,10 @@ class ScopeV1(ScopeUnit):
     def programs(self, tier):
         if tier == "quick":
             return [("s", "k"), ("s", "j"), ("a", "k"), ("sa", "k"), ("s", "rj"), ("f", "k"),
-                    ("ss", "k"), ("sn", "k"), ("a", "jk"), ("s", "q"), ("sa", "rj"), ("sd", "k")]
-        return [("s", "k"), ("s", "j"), ("a", "k"), ("sa", "k"), ("s", "rj"), ("f", "k"), ("ss", "k"),
+                    ("ss", "k"), ("sn", "k"), ("a", "jk"), ("s", "q"), ("sa", "rj"), ("sd", "k"),
+                    ("x", "k"), ("w", "j"), ("y", "k"), ("z", "k"), ("sx", "k")]
+        return [("x", "k"), ("w", "j"), ("y", "k"), ("z", "k"), ("sx", "k"), ("xy", "jk"), ("sz", "k"), ("yw", "rj"),
+                ("s", "k"), ("s", "j"), ("a", "k"), ("sa", "k"), ("s", "rj"), ("f", "k"), ("ss", "k"),
                 ("sn", "k"), ("a", "jk"), ("s", "q"), ("sa", "rj"), ("sd", "k"),
                 ("ssa", "k"), ("sa", "jk"), ("sf", "k"), ("an", "rj"), ("ss", "kk"), ("saf", "k")]
 
@@ -246,7 +260,8 @@ class ScopeV0(ScopeUnit):
     def programs(self, tier):
         if tier == "quick":
             return [("s", "j"), ("s", "k"), ("ss", "k"), ("s", "rj"), ("sn", "k"), ("s", "jk"),
-                    ("ss", "j"), ("s", "q"), ("ss", "rj"), ("-", "jk")]
-        return [("s", "j"), ("s", "k"), ("ss", "k"), ("s", "rj"), ("sn", "k"), ("s", "jk"), ("ss", "j"),
+                    ("ss", "j"), ("s", "q"), ("ss", "rj"), ("-", "jk"), ("x", "j"), ("sx", "k"), ("x", "rj")]
+        return [("x", "j"), ("sx", "k"), ("x", "rj"), ("xs", "jk"), ("xx", "q"),
+                ("s", "j"), ("s", "k"), ("ss", "k"), ("s", "rj"), ("sn", "k"), ("s", "jk"), ("ss", "j"),
                 ("s", "q"), ("ss", "rj"), ("-", "jk"),
                 ("sss", "k"), ("ssn", "j"), ("ss", "jk"), ("sn", "rj"), ("ss", "q"), ("sss", "jj")]
